@@ -217,7 +217,7 @@ func (set *TemplateSet) FromFile(filename string) (*Template, error) {
 func (set *TemplateSet) fromFileNested(referrer *Template, filename string) (*Template, error) {
 	if referrer.nesting >= maxTemplateNesting {
 		return nil, &Error{
-			Filename:  filename,
+			Filename:  referrer.name,
 			Sender:    "nesting",
 			OrigError: fmt.Errorf("maximum template nesting depth reached (max is %v)", maxTemplateNesting),
 		}
